@@ -1,5 +1,6 @@
 import CnvVerif.Driver.Json
 import CnvVerif.Model.GeneExt
+import CnvVerif.Model.SquashExt5
 open Lean
 namespace CnvVerif.Drv.GeneExt
 open CnvVerif.Genes CnvVerif.GeneExt CnvVerif.PyDict16
@@ -46,6 +47,26 @@ def handleGeneExt (op : String) (inp : Json) (impl : Option Json) : R (Option Js
         let d ← getList getItem16 ij
         pure (arrJ ((if absent then (if d.isEmpty then [] else ["gene_map_absent_column"]) else geneMapSpec16 gs d).map strJ)))
     pure (some (obj [("out", dictJ16 out), ("spec", spec)]))
+  | "squash_cols" =>
+    let rest ← getList getStr (← fld inp "rest")
+    let cols := Squash16.required ++ rest
+    let labJ (p : String × Squash16.Desc) : Json := arrJ [strJ p.1, strJ p.2.1, strJ p.2.2]
+    let getLab (j : Json) : R (String × Squash16.Desc) := do
+      let a ← getArr j
+      if a.size < 3 then throw "label needs 3 fields"
+      pure (← getStr a[0]!, (← getStr a[1]!, ← getStr a[2]!))
+    let outJ := match Squash16.labelled cols with
+      | some l => arrJ (l.map labJ)
+      | none => obj [("error", strJ "ShortRow")]
+    let spec ← (match impl with
+      | none => pure Json.null
+      | some ij => do
+        let l ← getList getLab ij
+        let head := l.take 5 == Squash16.required.zip Squash16.headSpec
+        let own := rest != Squash16.appendOrder rest || l.all (fun p => p.2.1 == p.1)
+        pure (arrJ (((if head then [] else ["squash_labels_required_columns"]) ++
+          (if own then [] else ["squash_labels_append_order"])).map strJ)))
+    pure (some (obj [("out", outJ), ("spec", spec)]))
   | _ => pure none
 
 end CnvVerif.Drv.GeneExt
